@@ -148,7 +148,7 @@ H_REPL = {"fn": "vh_replicate_step", "what": "one AppendEntries round of replica
           "covers": ["repl.success", "repl.rejected", "repl.stale-term", "repl.rpc-error", "repl.needs-snapshot", "repl.prev-is-snapshot"]}
 H_LEASE = {"fn": "vh_lease_step", "what": "one checkLeaderLease on an arbitrary leader: arbitrary suffrages, arbitrary last-contact instants, arbitrary lease >= 5ms, symbolic clock",
            "bounds_quick": "N<=3 servers", "bounds_thorough": "N<=4", "covers": ["lease.stepdown", "lease.stay"],
-           "opts": {"timeout_ms": 4000}}
+           "opts": {"timeout_ms": 8000}}
 H_VERIFY = {"fn": "vh_verify_count", "what": "verifyLeader + acknowledgements (success / failure / silence per peer) + the verify case of leaderLoop",
             "bounds_quick": "N<=3 servers of symbolic suffrage", "bounds_thorough": "N<=4",
             "covers": ["verify.success", "verify.failed", "verify.pending", "verify.immediate"]}
@@ -282,3 +282,12 @@ CHECKS["C02"]["harnesses"] += [H_SESSION_THOROUGH]
 CHECKS["C04"]["harnesses"] += [H_SESSION_THOROUGH]
 CHECKS["C05"]["harnesses"] += [H_SESSION_THOROUGH]
 CHECKS["C12"]["explanation"] += " SESSION: a fresh leader's replicateTo runs against a real follower object until nextIndex passes the end: the follower's log then equals the leader's above its snapshot, no stale entry is left, the FSM was fed only the leader's committed entries, within 2W+3 RPCs."
+
+H_FOLLOWER = {"fn": "vh_follower_loop", "what": "runFollower to its first park with one client item queued (each queue in turn) and the heartbeat timer firing or not; self voter / non-voter / absent; latest configuration committed or not",
+              "bounds": "N<=2 servers, 6 queues x timer x membership", "covers": ["follower.apply-refused", "follower.became-candidate", "follower.stayed"]}
+H_TAKESNAP = {"fn": "vh_take_snapshot", "what": "takeSnapshot together with the real runFSM goroutine and the real runFollower loop (answers the configurations request); FSM.Snapshot / Persist / snapshot-store faults; TrailingLogs 0..2",
+              "bounds": "W=2", "covers": ["snapshot.taken", "snapshot.failed", "snapshot.nothing-applied"]}
+for p in ["C17", "C07", "C13", "C08", "C18", "C14", "C06"]:
+    CHECKS[p]["harnesses"].append(H_FOLLOWER)
+CHECKS["C11"]["harnesses"].append(H_TAKESNAP)
+CHECKS["C11"]["explanation"] += " TAKE-SNAPSHOT: takeSnapshot with the real FSM goroutine and main loop: the sink is stamped with the FSM goroutine's (lastIndex,lastTerm) and the main loop's committed configuration, refused while that configuration is not yet applied, durable before lastSnapshot moves and before compaction; failures move nothing."
